@@ -23,14 +23,24 @@ def _is_tag(cx, tag):
     return tag == TAG or (cx.control and tag == 'verif_controls::LateStoreBehavior')
 
 
+_VAL = {'f': 'value'}
+
+
+def _value_field(cx, adt_path):
+    """the field holding the current value: the one whose type is a shared cell (the AssociatedRefPtr::Rc<Item> alias, or MutRc|MutArc)"""
+    F = cx.facts
+    return roles.field_where(cx, adt_path, lambda t, ti: (t['k'] == 'alias' and t['p'].endswith('AssociatedRefPtr::Rc')) or
+                             (t['k'] == 'adt' and t['p'] in ('rc::MutRc', 'rc::MutArc')), 'current-value cell')
+
+
 def _store_ev(n):
     if n['kind'] == 'assign':
         root, steps = access_path(n['lhs'])
-        if '@' in steps and steps[0] == 'value':
+        if '@' in steps and steps[0] == _VAL['f']:
             return ('store',)
     if n['kind'] == 'call' and n['name'] in ('std::mem::replace', 'std::option::Option::replace', 'std::cell::Cell::set') and n['args']:
         root, steps = access_path(n['args'][0])
-        if '@' in steps and steps[0] == 'value':
+        if '@' in steps and steps[0] == _VAL['f']:
             return ('store',)
     return None
 
@@ -43,6 +53,8 @@ def check(cx):
         tag = roles.impl_tag(cx, im)
         if not _is_tag(cx, tag):
             continue
+        _VAL['f'] = _value_field(cx, tag)
+        VCLS = 'self.' + _VAL['f']
         tr = im.get('trait')
         if tr == 'observer::Observer':
             seen.add('observer')
@@ -63,7 +75,7 @@ def check(cx):
             if tag == TAG:
                 held = lock_scopes(g)
                 downs = [n for n in g.nodes if n['kind'] in ('call', 'enter') and n['name'] == 'observer::Observer::next' and not n['ctx']]
-                atomic = bool(downs) and all(any(h[1] == 'self.value' for h in held[n['id']]) for n in downs)
+                atomic = bool(downs) and all(any(h[1] == VCLS for h in held[n['id']]) for n in downs)
                 res.append(Finding(ID, 'B4', label, atomic,
                                    'store and broadcast in one critical section' if atomic else
                                    'store into the value cell and broadcast are two separate critical sections: with two producer threads the stored value can differ from the one delivered last '
@@ -83,7 +95,7 @@ def check(cx):
                 return None
             bad = lang_check(g, 'next sub', ev2, exact=True, empty_ok=False)
             nexts = [n for n in g.nodes if down_method(n) == 'next']
-            from_cell = bool(nexts) and all(len(n['args']) > 1 and mentions(n['args'][1], lambda e: e[0] == 'call' and e[1] == 'std::clone::Clone::clone' and '@' in access_path(e[2][0])[1] and 'value' in access_path(e[2][0])[1]) for n in nexts)
+            from_cell = bool(nexts) and all(len(n['args']) > 1 and mentions(n['args'][1], lambda e: e[0] == 'call' and e[1] == 'std::clone::Clone::clone' and '@' in access_path(e[2][0])[1] and _VAL['f'] in access_path(e[2][0])[1]) for n in nexts)
             ok = not bad and from_cell
             res.append(Finding(ID, 'B2', label, ok,
                                'replays a clone of the value cell, then joins the inner subject' if ok else
@@ -92,7 +104,7 @@ def check(cx):
             if tag == TAG:
                 held = lock_scopes(g)
                 subs = [n for n in g.nodes if n['kind'] in ('call', 'enter') and n['name'] == SUBSCRIBE and not n['ctx']]
-                atomic = bool(subs) and all(any(h[1] == 'self.value' for h in held[n['id']]) for n in subs)
+                atomic = bool(subs) and all(any(h[1] == VCLS for h in held[n['id']]) for n in subs)
                 res.append(Finding(ID, 'B5', label, atomic,
                                    'replay and join in one critical section' if atomic else
                                    'replay of the current value and the join of the inner subject are not atomic w.r.t. a concurrent producer: an emission between them is lost for the new subscriber',
@@ -107,7 +119,7 @@ def check(cx):
     ok = False
     why = 'BehaviorSubject not found'
     if adt:
-        f = [x for v in adt['variants'] for x in v['fields'] if x['n'] == 'value']
+        f = [x for v in adt['variants'] for x in v['fields'] if x['n'] == _value_field(cx, TAG)]
         t = F.ty(f[0]['t']) if f else None
         ok = bool(t) and t['k'] == 'alias' and t['p'].endswith('AssociatedRefPtr::Rc')
         why = 'value: %s' % (t['s'] if t else '?')
